@@ -196,3 +196,102 @@ macro_rules! volume4d_degenerate {
 
 volume4d_degenerate!(c18_volume_4d_degenerate_g2_fixed3, 2, 3);
 volume4d_degenerate!(c18_volume_4d_degenerate_g1_fixed1, 1, 1);
+
+// ---------------------------------------------------------------------------
+// Circumcentre (D = 2): LU solve on relative coordinates; no sqrt/hypot involved
+// ---------------------------------------------------------------------------
+
+use delaunay::geometry::util::circumsphere::circumcenter;
+
+/// Exact rational circumcentre of an integer triangle: x0 + (nx, ny) / d with d = 2 * det.
+fn exact_circumcentre_2d(ip: &[[i32; 2]; 3]) -> (i32, i32, i32) {
+    let (ax, ay) = (ip[1][0] - ip[0][0], ip[1][1] - ip[0][1]);
+    let (bx, by) = (ip[2][0] - ip[0][0], ip[2][1] - ip[0][1]);
+    let d = 2 * (ax * by - ay * bx);
+    let a2 = ax * ax + ay * ay;
+    let b2 = bx * bx + by * by;
+    (d, by * a2 - ay * b2, ax * b2 - bx * a2)
+}
+
+fn any_triangle_g(g: i32) -> ([[i32; 2]; 3], [Point<f64, 2>; 3]) {
+    let mut ip = [[0_i32; 2]; 3];
+    let mut pts = [Point::new([0.0, 0.0]); 3];
+    let mut i = 0;
+    while i < 3 {
+        let x = any_grid(g);
+        let y = any_grid(g);
+        ip[i] = [x, y];
+        pts[i] = Point::new([f64::from(x), f64::from(y)]);
+        i += 1;
+    }
+    (ip, pts)
+}
+
+harness! {
+    // bound: circumcenter D=2, 3 EXACTLY collinear points with integer coordinates in [-2,2]: must be Err (KNOWN FINDING F4: Ok(garbage) when the LU elimination leaves a rounding residue as pivot)
+    #[kani::unwind(5)]
+    fn c18_circumcenter_degenerate_2d_g2() {
+        let (ip, pts) = any_triangle_g(2);
+        let (d, _, _) = exact_circumcentre_2d(&ip);
+        kani::assume(d == 0);
+        let got = circumcenter(&pts);
+        assert!(got.is_err(), "a degenerate simplex has no circumcentre");
+        kani::cover!(ip[0][0] != ip[1][0] && ip[1][0] != ip[2][0] && ip[0][1] != ip[1][1], "three distinct collinear points on a slanted line reached");
+        core::mem::forget(got);
+    }
+}
+
+harness! {
+    // bound: circumcenter D=2, 3 non-collinear points with integer coordinates in [-2,2]: Ok(C) with C*d = exact numerator (d = 2*det) to 1e-9
+    #[kani::unwind(5)]
+    fn c18_circumcenter_value_2d_g2() {
+        let (ip, pts) = any_triangle_g(2);
+        let (d, nx, ny) = exact_circumcentre_2d(&ip);
+        kani::assume(d != 0);
+        let got = circumcenter(&pts);
+        let Ok(c) = &got else { panic!("a non-degenerate simplex has a circumcentre") };
+        let df = f64::from(d);
+        let ex = f64::from(ip[0][0] * d + nx); // exact integer: d * Cx
+        let ey = f64::from(ip[0][1] * d + ny);
+        let tol = 1e-9 * (1.0 + ex.abs().max(ey.abs()));
+        assert!((c.coords()[0] * df - ex).abs() <= tol && (c.coords()[1] * df - ey).abs() <= tol,
+            "circumcentre agrees with the exact rational value");
+        kani::cover!(nx != 0 && ny != 0, "generic triangle reached");
+        kani::cover!(nx == 0, "circumcentre on the vertical through x0 reached");
+        core::mem::forget(got);
+    }
+}
+
+harness! {
+    // bound: circumcenter D=2 translation invariance: triangle in [-2,2]^2 translated by t = (m0, m1) * 2^k, m in [-3,3], k in 0..=44: C(p + t) = C(p) + t within 2^-48 |t| + 2^-30
+    #[kani::unwind(5)]
+    fn c18_circumcenter_translation_2d() {
+        let k: u8 = kani::any();
+        kani::assume(k <= 44);
+        let unit = f64::from_bits((1023_u64 + u64::from(k)) << 52);
+        let t = [f64::from(any_grid(3)) * unit, f64::from(any_grid(3)) * unit];
+        let mut p = [Point::new([0.0, 0.0]); 3];
+        let mut q = [Point::new([0.0, 0.0]); 3];
+        let mut ip = [[0_i32; 2]; 3];
+        let mut i = 0;
+        while i < 3 {
+            let x = any_grid(2);
+            let y = any_grid(2);
+            ip[i] = [x, y];
+            p[i] = Point::new([f64::from(x), f64::from(y)]);
+            q[i] = Point::new([f64::from(x) + t[0], f64::from(y) + t[1]]); // exact: integers below 2^48
+            i += 1;
+        }
+        let det = det3([[ip[0][0], ip[0][1], 1], [ip[1][0], ip[1][1], 1], [ip[2][0], ip[2][1], 1]]);
+        kani::assume(det != 0);
+        let c0 = circumcenter(&p);
+        let c1 = circumcenter(&q);
+        let (Ok(c0), Ok(c1)) = (&c0, &c1) else { panic!("non-degenerate triangle without circumcentre") };
+        let tol0 = t[0].abs() * f64::from_bits((1023_u64 - 48) << 52) + f64::from_bits((1023_u64 - 30) << 52);
+        let tol1 = t[1].abs() * f64::from_bits((1023_u64 - 48) << 52) + f64::from_bits((1023_u64 - 30) << 52);
+        assert!(((c1.coords()[0] - t[0]) - c0.coords()[0]).abs() <= tol0 && ((c1.coords()[1] - t[1]) - c0.coords()[1]).abs() <= tol1,
+            "circumcentre is translation invariant");
+        kani::cover!(k == 44 && t[0] != 0.0, "far translation reached");
+        kani::cover!(k == 0, "unit translation reached");
+    }
+}
